@@ -310,6 +310,19 @@ class Observed:
         return "resolved"
 
 
+def _parameter_on_path(ir, tr):
+    """is some non-final element of a dotted field reference itself bound to a parameter
+    (as opposed to a parameter only reached by following a virtual alias)?"""
+    from compiler.util import ir_util
+    for f in tr.frs:
+        for r in f.path[:-1]:
+            if r.has_field("canonical_name"):
+                o = ir_util.find_object_or_none(r, ir)
+                if isinstance(o, ir_data.RuntimeParameter):
+                    return True
+    return False
+
+
 def observe(ir, tr):
     """Run the real passes on `ir` (mutates it).  tr: the Translation made BEFORE."""
     import traceback
@@ -351,7 +364,8 @@ def observe(ir, tr):
         tb = traceback.extract_tb(ex.__traceback__)
         if "RuntimeParameter" in str(ex) and tb[-1].name == "_resolve_field_reference":
             ob.stage2 = "crash-param"
-            ob.crash = ("resolve_field_references", repr(ex), tb[-1].name, type(ex).__name__)
+            ob.crash = ("resolve_field_references", repr(ex), tb[-1].name, type(ex).__name__,
+                        "direct" if _parameter_on_path(ir, tr) else "via-alias")
             return ob
         ob.crash = ("resolve_field_references", repr(ex), tb[-1].name, type(ex).__name__)
         ob.stage2 = "other-crash"
